@@ -46,6 +46,9 @@ var validNames = []string{
 // nothing that would itself break the X-Matrix header syntax (no quote,
 // comma or backslash).
 var invalidNames = []string{
+	"[fe80::1%eth0]",
+	"[fe80::1%eth0]:8448",
+	"[::1%lo]",
 	"exa mple.org",
 	"under_score.example",
 	"host.example:port",
